@@ -314,3 +314,4 @@ def rule_cargo_features(ctx, rule="C20-features"):
                 if (t.get("inst_crate") or t.get("callee_crate")) == "std":
                     bad.append("%s in %s" % (callee_name(t), path))
         ctx.ob(rule, "crate", "no-std-calls", not bad, how="no call into crate `std` without the std feature", detail="calls into std without the std feature: %s" % bad[:3])
+
